@@ -315,6 +315,11 @@ def apply_view_step(t, st):
         return T.idx0(t, st[1])
     if st[0] == "index":
         return T.app("index", t, st[1])
+    if st[0] == "op" and st[1] == "transpose_s":
+        a, b, crank = st[2], st[3], st[4]
+        comps = T.as_stack0(t)
+        one = (lambda c: T.app("t", c)) if crank == 2 else (lambda c: T.app("transpose", c, a, b))
+        return T.stack0(*[one(c) for c in comps]) if comps is not None else T.app("transpose", t, a, b)
     if st[0] == "op":
         return T.app(st[1], t, *st[2:])
     raise Unsupported("view step %r" % (st,))
